@@ -65,6 +65,9 @@ C04_CORPUS = [
     ({'logical_processors': 8, 'enc_mode': 6}, {'kind': 'moving', 'seed': 5}, 9, (128, 128)),
     ({'logical_processors': 16, 'tile_columns': 1, 'tile_rows': 1}, {'kind': 'mix', 'seed': 9}, 8, (192, 128)),
     ({'logical_processors': 2, 'hierarchical_levels': 3, 'enable_tpl_la': 1, 'look_ahead_distance': 17}, {'kind': 'moving', 'seed': 11}, 12, (96, 64)),
+    # longer than the picture-control-set pools at one logical processor: pooled objects are recycled, so state left behind by an
+    # earlier picture (stale flags, counters, condition variables) meets the scheduler's reorderings
+    ({'logical_processors': 1, 'enable_tpl_la': 1}, {'kind': 'moving', 'seed': 13}, 44, (64, 64)),
 ]
 
 @check('C04')
